@@ -26,7 +26,7 @@
 From Coq Require Import List ZArith NArith Bool.
 From Astisub Require Import Kit.Base Kit.Str Kit.Scan Model.Dur Model.Ssa.
 From Coq Require Import Permutation.
-From Astisub Require Import Proofs.EolProofs Proofs.SsaFields Proofs.SsaText Proofs.SsaRows Proofs.SsaDoc Proofs.SsaInfo Proofs.SsaInfoOrder Proofs.SsaIgnore Proofs.SsaOrder Proofs.SsaRepr Proofs.SsaRead Proofs.SsaReadAny.
+From Astisub Require Import Proofs.EolProofs Proofs.SsaFields Proofs.SsaText Proofs.SsaRows Proofs.SsaDoc Proofs.SsaInfo Proofs.SsaInfoOrder Proofs.SsaIgnore Proofs.SsaOrder Proofs.SsaRepr Proofs.SsaRead Proofs.SsaReadAny Proofs.SsaEvents Proofs.SsaWriteRender.
 Import ListNotations.
 
 (* ---- field codecs ---- *)
@@ -227,3 +227,57 @@ Print Assumptions C04_star_style.
 Theorem C04_star_default : forall e, exists e', event_cell (eattr_name EStyle) n_star_default e = Ok e' /\ av_style e' = n_default.
 Proof. exact star_default_cell. Qed.
 Print Assumptions C04_star_default.
+
+(* ---- writer output as a rendering: the reader-independent denotation of what the writer emits ----
+   The renderer / denotation pair of C04_read_rendered decodes writer output.  For every representable document d the
+   bytes written are, with LF line ends, the CANONICAL RENDERING of d (Proofs/SsaWriteRender.v):
+     rendered_lines "[Script Info]" (canon_info d) all_fkeys (w_styles d) "[Events]" (w_fe d) (w_erows d)
+   with one empty line before the styles header (when d has styles) and one before the events header (spaced_lines;
+   blank_before l = [] :: l for a non-empty segment l), where
+     w_styles d = None when d has no styles, else Some (the "[V4 Styles]" / "[V4+ Styles]" header, the names of
+                  style_fmt (doc_styles d) joined by ", ", for every style st the cells ay_name st :: map (cell_of st) attrs
+                  paired with st itself)  (style_fmt (doc_styles d) = AName :: attrs),
+     w_fe d     = the names of event_format (is_v4plus d) joined by ", ",
+     w_erows d  = for every item i, with e = event_of_item i, the nine cells before the text, the text cell, paired
+                  with the event event_canon (is_v4plus d) e,
+   and this rendering satisfies EVERY hypothesis of C04_read_rendered (rendering_ok is the conjunction of those
+   hypotheses, C04_rendering_ok_reads is C04_read_rendered under that packaging) with scols / ecols the names of the two
+   formats.  Hence (C04_write_denotes) the bytes are decoded -- by line splitting (lines_render), removal of the two
+   empty lines (C04_ignores_unintelligible_lines only: C04_read_spaced) and C04_read_rendered -- to the document the
+   rendering denotes, w_denotation d; this derivation does not use C04_write_read.  C04_write_denotes_agrees: that
+   document is canon_doc d, the result of the block-by-block route of C04_write_read. *)
+Theorem C04_read_spaced : forall hi b keys styles he fe erows e,
+  read_ssa_lines (spaced_lines hi b keys styles he fe erows) e = read_ssa_lines (rendered_lines hi b keys styles he fe erows) e.
+Proof. exact read_spaced. Qed.
+Print Assumptions C04_read_spaced.
+Theorem C04_rendering_ok_reads : forall hi b keys styles he fe erows scols ecols,
+  rendering_ok hi b keys styles he fe erows scols ecols ->
+  read_ssa_lines (rendered_lines hi b keys styles he fe erows) false = Ok (rendering_denotes b styles erows).
+Proof. exact read_rendered_ok. Qed.
+Print Assumptions C04_rendering_ok_reads.
+(* the lines of the writer (doc_lines, C04's write_lines) are the spaced canonical rendering: for every document *)
+Theorem C04_write_lines_rendering : forall d,
+  doc_lines d = spaced_lines n_script_info_hdr (canon_info d) all_fkeys (w_styles d) n_events_hdr (w_fe d) (w_erows d).
+Proof. exact write_is_rendering. Qed.
+Print Assumptions C04_write_lines_rendering.
+Theorem C04_write_is_rendering : forall d, doc_repr d ->
+  write_ssa d (style_keys d) =
+    Ok (render_eol [10%N] (spaced_lines n_script_info_hdr (canon_info d) all_fkeys (w_styles d) n_events_hdr (w_fe d) (w_erows d))) /\
+  rendering_ok n_script_info_hdr (canon_info d) all_fkeys (w_styles d) n_events_hdr (w_fe d) (w_erows d) (w_scols d) (w_ecols d).
+Proof. exact write_is_rendering_full. Qed.
+Print Assumptions C04_write_is_rendering.
+Theorem C04_write_denotes : forall d, doc_repr d ->
+  exists data, write_ssa d (style_keys d) = Ok data /\
+    read_ssa data = Ok (mkAdoc (Some (canon_info d)) (styles_map (doc_styles d))
+                          (map (fun ev => event_item ev (styles_map (doc_styles d)))
+                               (map (fun i => event_canon (is_v4plus d) (event_of_item i)) (ad_items d)))).
+Proof. exact write_denotes. Qed.
+Print Assumptions C04_write_denotes.
+Theorem C04_write_denotes_agrees : forall d, doc_repr d ->
+  mkAdoc (Some (canon_info d)) (styles_map (doc_styles d))
+         (map (fun ev => event_item ev (styles_map (doc_styles d)))
+              (map (fun i => event_canon (is_v4plus d) (event_of_item i)) (ad_items d))) = canon_doc d.
+Proof. exact write_denotes_canon. Qed.
+Print Assumptions C04_write_denotes_agrees.
+Example C04_write_denotes_example : exists data, write_ssa ex_doc (style_keys ex_doc) = Ok data /\ read_ssa data = Ok (w_denotation ex_doc).
+Proof. exact (write_denotes ex_doc ex_doc_repr). Qed.
